@@ -414,6 +414,19 @@ example :
   constructor <;>
     (simp only [imStep, imStepFwd, imStepAdj, bind, Except.bind, pure, Except.pure]; norm_num)
 
+/-- Implicit leapfrog with a genuinely non-separable `h₂ = q²/2 + qp/2 + p²/2`, `h₁ = q²/2`, the
+exact solver for affine fixed-point maps and the exact check: the step moves the point and the
+step with the negative step size returns exactly. -/
+example :
+    let S : GLSystem ℚ := ⟨fun q => q, fun q p => q + p / 2, fun q p => q / 2 + p⟩
+    let solve : (ℚ → ℚ) → ℚ → Res ℚ := fun g _ => .ok (g 0 / (1 - (g 1 - g 0)))
+    let far : ℚ → Bool := fun d => d != 0
+    glStep (K := ℚ) S solve far (1 / 2) (1, 1) = .ok (97 / 63, -8 / 21) ∧
+      glStep (K := ℚ) S solve far (-(1 / 2)) (97 / 63, -8 / 21) = .ok (1, 1) := by
+  constructor <;>
+    (simp only [glStep, glStepA, glStepBFwd, glStepBAdj, glStepCFwd, glStepCAdj, bind, Except.bind,
+      pure, Except.pure]; norm_num)
+
 /-- The hypotheses on `far` are satisfiable: the exact check `d ≠ 0`. -/
 example : (fun d : ℚ => d != 0) 0 = false ∧ ∀ d : ℚ, (fun d : ℚ => d != 0) d = false → d = 0 := by
   constructor
